@@ -29,6 +29,28 @@ Theorem wrap_shares_memory :
 Proof. exact @element_shares. Qed.
 Print Assumptions wrap_shares_memory.
 
+(* The layout precondition, explicit: with order=None a writeable array of
+   matching dtype and shape is shared whatever its memory layout (C, Fortran,
+   transposed, strided, negative strides); ... *)
+Theorem wrap_shares_memory_any_layout :
+  forall (T : Type) (cast : dt -> dt -> T -> T) (st : @store T) (sp : tspace) (id : nat) (l : layout),
+  shape_eqb (a_shape (rd st id)) (ts_shape sp) = true ->
+  dt_eqb (a_dt (rd st id)) (ts_dt sp) = true ->
+  t_element_lay cast st sp id true l None = Ok (OpTens sp id, st).
+Proof. exact @element_shares_any_layout. Qed.
+(* ... in every other case (dtype differs, read-only array, or an explicit
+   order= the array does not already have) the element lives in a fresh
+   converted copy and no existing buffer is touched. *)
+Theorem wrap_copies_otherwise :
+  forall (T : Type) (cast : dt -> dt -> T -> T) (st : @store T) (sp : tspace) (id : nat)
+         (w : bool) (l : layout) (o : option order),
+  shape_eqb (a_shape (rd st id)) (ts_shape sp) = true ->
+  dt_eqb (a_dt (rd st id)) (ts_dt sp) && w && layout_ok o l = false ->
+  t_element_lay cast st sp id w l o
+  = Ok (OpTens sp (length st), st ++ [cast_arr cast (ts_dt sp) (rd st id)]).
+Proof. exact @element_copies_otherwise. Qed.
+Print Assumptions wrap_shares_memory_any_layout.
+
 (* np.<ufunc>(x, ...) without out, NumpyTensor operands mixed with arrays and
    scalars in any order (1 or 2 outputs).  SOUND: whenever ODL returns, NumPy on
    the underlying arrays returns too, leaves the identical store (same numbers,
@@ -501,3 +523,74 @@ Theorem pspace_reduce_never_wrapped_refuted :
   (2 <= n)%nat -> s <> [] -> a_shape r = s -> wrap_pspace cast n s d r = Err EValue.
 Proof. exact @wrap_part_shape_fails. Qed.
 Print Assumptions pspace_reduce_never_wrapped_refuted.
+
+(* ------------------------------------------------------------------------
+   TRANSFER: the array semantics executed at Q by the correspondence shards is
+   the rational restriction of the semantics the R-instance laws above are
+   about -- Q2R commutes with every method, for every division-free ufunc
+   (all but true_divide / reciprocal), every shape. *)
+From Coq Require Import Qreals.
+From Verif Require Import Base.Transfer C17.Transfer.
+Theorem transfer_reduce :
+  forall (o : bop) (outer n inner : nat) (d : list Q), bop_nodiv o = true ->
+  option_map (map Q2R) (reduce_ax o outer n inner d) = reduce_ax o outer n inner (map Q2R d).
+Proof. exact reduce_ax_transfer. Qed.
+Theorem transfer_accumulate :
+  forall (o : bop) (outer n inner : nat) (d : list Q), bop_nodiv o = true ->
+  map Q2R (accumulate_ax o outer n inner d) = accumulate_ax o outer n inner (map Q2R d).
+Proof. exact accumulate_ax_transfer. Qed.
+Theorem transfer_outer :
+  forall (o : bop) (x y : list Q), bop_nodiv o = true ->
+  map Q2R (outer o x y) = outer o (map Q2R x) (map Q2R y).
+Proof. exact outer_transfer. Qed.
+Theorem transfer_at :
+  forall (o : bop) (a : list Q) (ivs : list (nat * Q)), bop_nodiv o = true ->
+  map Q2R (at2 o a ivs) = at2 o (map Q2R a) (map (fun iv => (fst iv, Q2R (snd iv))) ivs).
+Proof. exact at2_transfer. Qed.
+Theorem transfer_call_unary :
+  forall (u : uop) (d : list Q), uop_nodiv u = true -> map Q2R (call1 u d) = call1 u (map Q2R d).
+Proof. exact call1_transfer. Qed.
+Print Assumptions transfer_reduce.
+
+(* ------------------------------------------------------------------------
+   TIE BY REGENERATION: Gen/UfuncDispatch.v is re-emitted from the current
+   source on every run (translate/ufunc_dispatch.py, fail-closed); the model
+   equals the generated decision fragments, so a source change of one of them
+   breaks one of these proofs. *)
+From Coq Require Import String.
+From Verif Require Import C17.Syntax Gen.UfuncDispatch C17.GenTie.
+(* the guard on the number of out arguments *)
+Theorem generated_out_count_guard :
+  forall (m : meth) (nout n : nat),
+  len_ok m nout n = negb (gen_len_bad_tens (is_call m) nout n)
+  /\ len_ok m nout n = negb (gen_len_bad_disc (is_call m) nout n).
+Proof. exact out_count_guard_generated. Qed.
+(* the accepted out types *)
+Theorem generated_valid_out_types :
+  forall (T : Type) (o : option (@operand T)),
+  tens_valid_out o = accepts_tens gen_valid_out_tens o
+  /\ disc_valid_out o = accepts_disc gen_valid_out_disc o.
+Proof. exact valid_out_types_generated. Qed.
+(* how NumpyTensor.__array_ufunc__ builds the result space: shape from self or
+   from the result, weighting kept / reset / default, as a table over
+   (floating result?, shape unchanged?) -- for the other methods, for both
+   outputs of a two-output ufunc, and for __call__ (the variant is read off the
+   source: [gen_grow]) *)
+Theorem generated_result_space_rules :
+  forall (T : Type) (sp : tspace) (r : @narr T),
+  meth_space sp r = apply_rule (gen_meth_rule (is_floating (a_dt r)) (shape_eqb (a_shape r) (ts_shape sp))) sp r
+  /\ call_space sp 2 r = apply_rule (gen_call2_rule (is_floating (a_dt r)) (shape_eqb (a_shape r) (ts_shape sp))) sp r
+  /\ (if gen_grow then meth_space sp r else call_space sp 1 r)
+     = apply_rule (gen_call_rule (is_floating (a_dt r)) (shape_eqb (a_shape r) (ts_shape sp))) sp r.
+Proof. exact result_space_rules_generated. Qed.
+(* what the discretized element refuses, with which error class *)
+Theorem generated_discr_refusals :
+  forall (m : meth) (keepdims all_elems : bool), m <> MCall ->
+  disc_reject m keepdims all_elems = table_reject gen_disc_rejects m keepdims all_elems.
+Proof. exact disc_reject_generated. Qed.
+(* x.ufuncs.sum/prod/min/max use add/multiply/minimum/maximum; wrap_ufunc_base
+   supports exactly the arities (1,1), (1,2), (2,1) *)
+Theorem generated_legacy_tables :
+  gen_legacy_reductions = [("sum", "add"); ("prod", "multiply"); ("min", "minimum"); ("max", "maximum")]%string
+  /\ gen_legacy_arities = [(1, 1); (1, 2); (2, 1)]%nat.
+Proof. exact legacy_tables_generated. Qed.
